@@ -108,6 +108,20 @@ class System:
                     ops.append(('insert', p, i, (new,)))
             ops.append(('insert', p, 0, ('Z', 'N')))
             ops.append(('append', p, ('N',)))
+            # the documented "move" idiom: copy() a node of this document, delete the original, insert the copy
+            if not (n.kind == 'C' and n.name != 'item'):
+                for q, m in nodes:
+                    if q == p or q[:len(p)] != p and p[:len(q)] == q:
+                        continue                      # not into itself / its own subtree
+                    if p[:len(q)] == q:
+                        continue
+                    owner = resolve(model, q[:-1])
+                    if q[-1][0] == 'b' and owner.kind == 'C' and owner.name != 'item':
+                        continue                      # the original could not be deleted (no-body rule)
+                    src_list, _ = container_of(model, q)
+                    ops.append(('move', q, p, 0, 'del-first'))
+                    if src_list is not n.body:
+                        ops.append(('move', q, p, len(n.body), 'ins-first'))
             if full:
                 ops.append(('append', p, ('Z', 'ENV')))
         return ops
@@ -127,6 +141,20 @@ class System:
         if k == 'replace_with':
             lst, i = container_of(model, op[1])
             lst[i:i + 1] = news
+            return None
+        if k == 'move':
+            lst, idx = container_of(model, op[1])
+            m = lst[idx]
+            dest = resolve(model, op[2])
+            if op[4] == 'del-first':
+                del lst[idx]
+                dest.body[op[3]:op[3]] = [m]
+            else:
+                dest.body[op[3]:op[3]] = [m.copy()]
+                for j, x in enumerate(lst):
+                    if x is m:
+                        del lst[j]
+                        break
             return None
         if k in ('insert', 'append'):
             c = resolve(model, op[1])
@@ -203,10 +231,23 @@ class System:
                 o, m = self.make_new(x)
                 news_impl.append(o)
                 news_model += m
+        dest_node = None
+        if k == 'move':
+            dest_node = self.node_for(soup, self.expr_at(soup, op[2]))
+            if dest_node is None:
+                return ({'node': 'reachable through descendants'}, {'node': None, 'op': list(op)})
         rejected = self.model_step(model, op, news_model)
         exc = None
         try:
-            if k == 'delete':
+            if k == 'move':
+                c = node.copy()
+                if op[4] == 'del-first':
+                    node.delete()
+                    dest_node.insert(op[3], c)
+                else:
+                    dest_node.insert(op[3], c)
+                    node.delete()
+            elif k == 'delete':
                 node.delete()
             elif k == 'remove':
                 node.parent.remove(node)
@@ -451,7 +492,7 @@ def coverage(tier, total):
         'transitions': int(total.extra['transitions']),
         'traces_validated_against_impl': int(total.extra['traces']),
         'max_depth': 2 if tier == 'quick' else 3,
-        'rule': 'BFS over edit histories (delete, replace_with, parent.remove, insert at 0/1/len/len+1, append, rename, '
+        'rule': 'BFS over edit histories (delete, replace_with, parent.remove, insert at 0/1/len/len+1, append, move (copy + delete + insert, both orders), rename, '
                 '.string, argument-list append/insert/pop/remove/reverse/clear/args=args[::-1]/args=args[:k]) with plain '
                 'strings, fresh nodes, fresh twins and a fresh environment as new material: depth 1 from every L_wf document '
                 'of (%s) and the argument layer; depth 2 from %d core documents%s; after every step: text == model, '
